@@ -23,7 +23,7 @@ DESIGN_REF = '6.3'
 TECHNIQUE = ('decision-table product (exception source x want form x flags x flag carrier x position) enumerated '
              'exhaustively, cells instantiated with Hypothesis-drawn messages; oracle table written from the statement, '
              'true exception text from CPython')
-LEVEL_TEXT = ("Every cell of the table exception-source (13, incl. SyntaxError and IndentationError raised at run time, an exception group and pytest's failure outcomes) x want-form (12, incl. a traceback that names only the type) x flag-set (8) x carrier (3) x position (3) is "
+LEVEL_TEXT = ("Every cell of the table exception-source (15, incl. SyntaxError and IndentationError raised at run time, an exception group and pytest's failure outcomes) x want-form (14, incl. tracebacks that name only the type or are cut off before the final line) x flag-set (8) x carrier (3) x position (3) is "
               "visited (quick: with two fixed messages; thorough: plus tens of thousands of drawn messages) and the verdict, "
               "the recorded exception class and the trace of statements before/after are compared with the table written "
               "from the statement. Fault-enumeration style exploration of a finite table with sampled parameters.")
@@ -39,9 +39,9 @@ ASSUMPTIONS = [
 ]
 
 SOURCES = ['builtin', 'nomsg', 'qualified', 'qualified2', 'userdef', 'library', 'helper', 'noraise', 'syntax_eval', 'indent_exec', 'group',
-           'pytest_fail', 'pytest_raises']
+           'pytest_fail', 'pytest_raises', 'falsy_exc', 'falsy_len_exc']
 OUTCOME_SOURCES = ('pytest_fail', 'pytest_raises')
-FORMS = ['none', 'exact', 'stack', 'innermost', 'wrongmsg', 'wrongtype', 'prose', 'bare', 'ellipsis', 'unqualified', 'typeonly', 'typecolon']
+FORMS = ['none', 'exact', 'stack', 'innermost', 'wrongmsg', 'wrongtype', 'prose', 'bare', 'ellipsis', 'unqualified', 'typeonly', 'typecolon', 'truncated_tb', 'header_only']
 FLAGSETS = [(), ('IED',), ('-ELL',), ('IW',), ('IED', '-ELL'), ('IED', 'IW'), ('-ELL', 'IW'), ('IED', '-ELL', 'IW')]
 CARRIERS = ['block', 'inline', 'default']
 POSITIONS = ['first', 'middle', 'last']
@@ -77,6 +77,11 @@ def raising_lines(source, msg, k):
         return [], "exec('if 1:\\nx = ' + {})".format(repr(str(len(msg))))
     if source == 'group':
         return [], 'raise ExceptionGroup({}, [ValueError(1), KeyError(2)])'.format(m)
+    if source == 'falsy_exc':
+        # an exception whose instances are falsy is an exception all the same
+        return ['class Quiet{}(Exception):'.format(k), '    def __bool__(self):', '        return False'], 'raise Quiet{}({})'.format(k, m)
+    if source == 'falsy_len_exc':
+        return ['class Multi{}(Exception):'.format(k), '    def __len__(self):', '        return 0'], 'raise Multi{}({})'.format(k, m)
     if source == 'pytest_fail':
         # pytest's failure outcome is a BaseException: it must leave run() or fail the doctest, never pass silently
         return ['import pytest'], 'pytest.fail({})'.format(m)
@@ -139,6 +144,11 @@ def want_lines(form, final, fallback_final):
         if '.' not in tp:
             return None
         return [HEADER] + (tp.split('.')[-1] + rest).split('\n')
+    if form == 'truncated_tb':
+        # a traceback cut off before its final 'Type: message' line: it names no exception at all
+        return [HEADER, '  File "<stdin>", line 1, in <module>', '    ...']
+    if form == 'header_only':
+        return [HEADER]
     if form == 'typeonly':
         # the traceback names the right type but no message at all
         if not rest:
@@ -176,6 +186,8 @@ def expected(source, form, flags):
         return 'pass' if (ell or ied) else 'fail_any'
     if form == 'unqualified':
         return 'pass' if ied else 'fail_any'
+    if form in ('truncated_tb', 'header_only'):
+        return 'fail_any'
     if form in ('typeonly', 'typecolon'):
         # an absent message is a different message: only IGNORE_EXCEPTION_DETAIL makes it pass
         return 'pass' if ied else 'fail_any'
